@@ -374,3 +374,27 @@ def fmt_path(path, limit=12):
     if len(items) > limit:
         items = items[: limit // 2] + ["..."] + items[-limit // 2:]
     return " -> ".join(items)
+
+
+def edge_region(cfg, test, kind):
+    """Nodes that can only be reached through the `kind` edge(s) out of `test`."""
+    allr = {n.id for n in cfg.reachable_from(cfg.entry)}
+    wo = {n.id for n in cfg.reachable_from(cfg.entry, edge_ok=lambda a, b, k: not (a is test and k == kind))}
+    return [n for n in cfg.live if n.id in allr and n.id not in wo]
+
+
+def calls_in(node, name=None, selfonly=False):
+    """Call nodes evaluated at CFG node `node` (not inside nested defs)."""
+    from .deps import node_exprs
+    out = []
+    for e in node_exprs(node):
+        for n in _walk_no_nested(e):
+            if isinstance(n, ast.Call):
+                f = n.func
+                nm = f.id if isinstance(f, ast.Name) else (f.attr if isinstance(f, ast.Attribute) else None)
+                if name is not None and nm != name:
+                    continue
+                if selfonly and not (isinstance(f, ast.Attribute) and isinstance(f.value, ast.Name) and f.value.id == "self"):
+                    continue
+                out.append(n)
+    return out
